@@ -37,23 +37,24 @@ Qed.
 Lemma cover_cap r : 0 <= r <= 180 ->
   0 < src_cover_pad /\ src_cover_cosine r <= cos (rad r) /\ (r < 180 -> src_cover_cosine r < cos (rad r)).
 Proof.
-  intros Hr. pose proof PI_RGT_0 as P. unfold src_cover_cosine, src_cover_pad, src_D2R, Rleb.
-  split; [lra|].
+  intros Hr. pose proof PI_RGT_0 as P.
+  assert (Hp : 0 < src_cover_pad) by (unfold src_cover_pad; lra).
+  split; [exact Hp|].
+  unfold src_cover_cosine, src_D2R, Rleb. set (p := src_cover_pad) in *.
   assert (R0 : 0 <= rad r <= PI).
   { unfold rad. split; [apply Rmult_le_pos; [lra|apply Rlt_le, Rdiv_lt_0_compat; lra]|].
     replace PI with (180 * (PI / 180)) at 2 by field. apply Rmult_le_compat_r; [apply Rlt_le, Rdiv_lt_0_compat; lra|lra]. }
   cbv zeta.
-  destruct (Rle_dec 180 (r + 1 / 10000)) as [H|H].
+  destruct (Rle_dec 180 (r + p)) as [H|H].
   - replace (180 * (PI / 180)) with PI by field. rewrite cos_PI. split.
     + pose proof (COS_bound (rad r)). lra.
     + intros Hlt. assert (rad r < PI).
       { unfold rad. replace PI with (180 * (PI / 180)) at 2 by field. apply Rmult_lt_compat_r; [apply Rdiv_lt_0_compat; lra|lra]. }
       rewrite <- cos_PI. apply cos_decreasing_1; lra.
-  - assert (rad r < (r + 1 / 10000) * (PI / 180) <= PI).
+  - assert (rad r < (r + p) * (PI / 180) <= PI).
     { unfold rad. split.
       - apply Rmult_lt_compat_r; [apply Rdiv_lt_0_compat; lra|lra].
       - replace PI with (180 * (PI / 180)) at 2 by field. apply Rmult_le_compat_r; [apply Rlt_le, Rdiv_lt_0_compat; lra|lra]. }
-    assert (cos ((r + 1 / 10000) * (PI / 180)) < cos (rad r)) by (apply cos_decreasing_1; lra).
+    assert (cos ((r + p) * (PI / 180)) < cos (rad r)) by (apply cos_decreasing_1; lra).
     split; [lra|intros _; lra].
 Qed.
-
